@@ -229,6 +229,20 @@ func vfBackdateConns(s *Server, d time.Duration, pred func(net.Conn) bool) int {
 	return n
 }
 
+// vfIdleByRecord returns the remote addresses of tracked connections whose recorded last activity is
+// older than d (read under the server's own lock).
+func vfIdleByRecord(s *Server, d time.Duration) map[string]bool {
+	s.connMutex.Lock()
+	defer s.connMutex.Unlock()
+	out := map[string]bool{}
+	for c, st := range s.activeConns {
+		if time.Since(st.lastActivity) > d {
+			out[c.RemoteAddr().String()] = true
+		}
+	}
+	return out
+}
+
 // ---------------- call transport over HandleCall ----------------
 
 type vfShapeErr struct{ msg string }
